@@ -359,7 +359,8 @@ def run(ctx, replay):
               ("Schema", "SchemaWriter.cfg", {"Deviations": '{"NoHardCap"}'}, "WChunkCap"),
               ("Schema", "SchemaSets.cfg", {"SetNMax": 140 if quick else 400}, None),
               ("Schema", "SchemaSets.cfg", {"Deviations": '{"SpreadDropsRest"}'}, "SMembersExact")]
-    s_futs = [pool.submit(ctx.tlc_check, m, c, overrides=o, workers=2, expect_violation=x, timeout=1500) for m, c, o, x in s_jobs]
+    s_futs = [pool.submit(ctx.tlc_check, m, c, overrides=o, workers=2, expect_violation=x, timeout=1500,
+                          coverage=(not quick and x is None and c != "Schema.cfg")) for m, c, o, x in s_jobs]
 
     ctx.sample({"tree": trees[len(trees) // 2]})
     ctx.sample({"tree_depth3": trees[-1]})
@@ -392,7 +393,9 @@ def run(ctx, replay):
 
     # ---- S results
     for f in s_futs:
-        f.result()
+        r = f.result()
+        if r.get("zero_actions"):       # thorough tier: an action of the writer / static-set model that never fired
+            raise vlib.MachineryError("vacuity: actions never taken in %s/%s: %s" % (r["module"], r["cfg"], r["zero_actions"]))
     pool.shutdown()
 
     ctx.count("G", trees=len(trees), trees_depth1=fam["g1"], trees_depth2=fam["g2"], trees_depth3=fam["g3"],
